@@ -83,16 +83,30 @@ func c02Source(p *pipe, vals []int) (*fun.Iterator[int], string) {
 		l.Append(vals...)
 		return l.Iterator(), "dt.List"
 	default:
-		// JSON: marshal through an iterator, unmarshal into a fresh one
+		// JSON: marshal through an iterator, unmarshal into a fresh one. Half of
+		// the time the document is written by hand, with some zero elements
+		// spelled "null" (which decodes to the zero value as well).
 		b, err := fun.SliceIterator(append([]int{}, vals...)).MarshalJSON()
 		if err != nil {
 			panic(err)
+		}
+		name := "json"
+		if simrt.Choose(2) == 1 {
+			parts := make([]string, len(vals))
+			for k, v := range vals {
+				parts[k] = fmt.Sprint(v)
+				if v == 0 && simrt.Choose(2) == 1 {
+					parts[k] = "null"
+				}
+			}
+			b = []byte("[" + strings.Join(parts, ", ") + "]")
+			name = "json(" + string(b) + ")"
 		}
 		it := dt.NewSlice([]int{}).Iterator()
 		if err := it.UnmarshalJSON(b); err != nil {
 			panic(err)
 		}
-		return it, "json"
+		return it, name
 	}
 }
 
